@@ -478,6 +478,11 @@ def r_cols_writer(ctx):
             continue
         me = V("param:self")
         ents = ("f", me, "entries")
+        if "self" not in fa.param_names:
+            # the serialiser is an associated function over a borrowed entry slice
+            sl = role_param(fa, f, "entries")
+            if sl is not None:
+                me = ents = sl
         arms = set()
         # no success path bypasses the codec: even an empty directory is a compressed stream holding the count varint
         for p in [q for q in fa.paths if q.exit in ("ok", "tail")]:
@@ -664,7 +669,7 @@ def _offrule_facts(d, idx, ent):
                     nones = [s_ for s_ in srcs if is_call_to(s_, lambda x: x == "core::option::Option::None")]
                     if somes and nones and len(somes) + len(nones) == len(srcs) and all(_same_entry(s_[2][0], ent) for s_ in somes):
                         return P      # Some ⇔ not the first entry; validated as "previous entry" here
-        if has_i:
+        if has_i or _not_first_flag(fs):
             return nb
         # `preceding_end == Some(entry.offset)` with an Option that is None exactly for the first entry: equality already implies "not the first entry"
         if _FA is not None and nb[0] == "v":
@@ -672,6 +677,26 @@ def _offrule_facts(d, idx, ent):
             if srcs and any(is_call_to(s, lambda x: x == "core::option::Option::None") for s in srcs) and not any(s[0] == "c" for s in srcs):
                 return nb
     return None
+
+
+def _not_first_flag(fs):
+    """a loop-carried boolean that marks the first iteration (`is_first`: true on entry, only ever set to false; or `seen_one`: false on entry,
+    only ever set to true) is known to say "not the first entry" """
+    if _FA is None:
+        return False
+    for f in fs:
+        if f[0] != "bool":
+            continue
+        flag = unmut(f[1])
+        if not (flag[0] == "v" and flag[1].startswith("loop")):
+            continue
+        init = set(unmut(x) for x in _FA.havoc_init.get(flag, ()))
+        srcs = set(unmut(x) for x in _FA.havoc_src.get(flag, ()))
+        first_val = ("lit", "bool", not f[2])          # the value the flag must have had on entry for this fact to mean "not first"
+        later_val = ("lit", "bool", bool(f[2]))
+        if init == {first_val} and srcs == {first_val, later_val}:
+            return True
+    return False
 
 
 def _offrule_facts_flipped(d, idx, ent):
